@@ -63,6 +63,12 @@ Proof. exact pstate_overflow_witness_lemma. Qed.
 Theorem row_loop_checked : forall vals scr st, row_loop_px scr st vals = Ok (row_fill scr st vals).
 Proof. exact row_loop_px_eq. Qed.
 
+(* the executable row loops test `row start >= screen.len()` once per row: the same guard as the break of the inner loop *)
+Theorem row_guard_is_break : forall scr len ystart vals, len = Z.of_nat (length scr) ->
+  (if (ystart <? 0) || (len <=? ystart) then scr else row_fill scr (Z.to_nat ystart) vals) =
+  (if ystart <? 0 then scr else row_fill scr (Z.to_nat ystart) vals).
+Proof. exact row_fill_guard. Qed.
+
 Theorem bar_rect_safe : forall s r, InvBgi s -> RectOk r ->
   exists scr, bar_rect s r = Ok (upd_screen s scr) /\ length scr = length (screen s).
 Proof. exact bar_rect_ok. Qed.
